@@ -305,3 +305,31 @@ func VH_C12_pdf_gradient_alpha_Q() {
 	vAssert("C12.gradient.alpha.first_draw_translucent", a1-want1 <= 1e-6 && want1-a1 <= 1e-6)
 	vAssert("C12.gradient.alpha.gradient_painted_opaque", a2 == 1)
 }
+
+// The colours of the stops: premultiplied colours of any alpha, 0 included (red and alpha are
+// symbolic bytes with red <= alpha, two stops at 0 and 1).  Every component the shading function
+// yields is a finite number in [0,1] - the content of a PDF function dictionary must be numbers -
+// and for stops that are not fully transparent it is the colour with the premultiplication undone.
+func VH_C12_pdf_gradient_stopcolors_Q() {
+	r0, a0, r1, a1 := vNondetByte(), vNondetByte(), vNondetByte(), vNondetByte()
+	vAssume(r0 <= a0 && r1 <= a1)
+	stops := canvas.Stops{{Offset: 0, Color: color.RGBA{r0, 0, 0, a0}}, {Offset: 1, Color: color.RGBA{r1, 0, 0, a1}}}
+	t := vNondetF64()
+	vAssume(0 <= t && t <= 1)
+	f := patternStopsFunction(stops)
+	got, ok := vhC12EvalFunc(f, t)
+	vAssert("C12.gradient.stopcolors.function_wellformed", ok)
+	if !ok {
+		return
+	}
+	fin := true
+	for _, v := range got {
+		fin = fin && vFinite(v) && -1e-9 <= v && v <= 1+1e-9
+	}
+	vAssert("C12.gradient.stopcolors.components_are_numbers_in_0_1", fin)
+	if a0 > 0 && a1 > 0 {
+		c0, c1 := float64(r0)/float64(a0), float64(r1)/float64(a1)
+		want := c0 + t*(c1-c0)
+		vAssert("C12.gradient.stopcolors.premultiplication_undone", got[0]-want <= 1e-9 && want-got[0] <= 1e-9)
+	}
+}
